@@ -29,9 +29,9 @@ type modelTerm struct {
 }
 
 type replayInfo struct {
-	fn     *ssa.Function
-	terms  []modelTerm
-	mode   Mode
+	fn    *ssa.Function
+	terms []modelTerm
+	mode  Mode
 }
 
 type replayResult struct {
